@@ -14,11 +14,12 @@ def prop(pid, title, level, units, clauses, explanation, statement_clauses=None,
 
 
 prop("C16", "rustfmt never terminates abnormally", "proof",
-     ["U01", "U02", "U03", "U06", {"unit": "U04", "only": r"does not panic"}, {"unit": "U07", "only": r"does not panic"}, {"unit": "U09", "only": r"does not panic"}],
+     ["U01", "U02", "U03", "U06", {"unit": "U04", "only": r"does not panic|FormatReportFormatter"}, {"unit": "U07", "only": r"does not panic"}, {"unit": "U09", "only": r"does not panic"}],
      [{"clause": "no arithmetic panic (overflow) in Range::{new,is_empty,contains,intersects,adjacent_to,merge} for any usize", "status": "proved", "by": "U01 (Verus)"},
       {"clause": "no arithmetic panic in FormatLines::{new_line,char,push_err,should_report_error} and the fold (line_len -= 1 never underflows: invariant last_was_space => line_len >= 1) for texts of any length, tab_spaces >= 1", "status": "proved", "by": "U03 (Verus)"},
       {"clause": "no overflow / division by zero in Indent and Shape arithmetic under wf (fields <= 2^32, tab_spaces >= 1); every *_opt turns 'does not fit' into None (is_none <=> delta > width)", "status": "proved", "by": "U06 (Verus; Kani for mut-self fns and the Option::map payloads)"},
       {"clause": "no panic in normalize_ranges / FileLines queries / FromStr, format_lines, Indent::to_string (80-column buffer seam), push_vertical_spaces on the enumerated domains (overflow checks on, panics caught per case)", "status": "bounded", "by": "U02, U04, U07, U09 (native)"},
+      {"clause": "printing the diagnostics (FormatReportFormatter over annotate-snippets) never panics, for every report format_lines can produce on the domain (tabs, multi-byte characters)", "status": "bounded", "by": "U04 (native; whole file format_report_formatter.rs with the real annotate-snippets)"},
       {"clause": "catch_unwind containment around the rustc parser and macro formatting; stack depth; ~900 unchecked arithmetic sites inside rewriters", "status": "not_decided", "by": "-"}],
      "Absence of arithmetic panics is discharged by Verus as machine-integer overflow obligations on the verbatim text of the listed functions (all inputs). "
      "Bounded units run the natively compiled real text with overflow checks and catch every panic as a failed obligation. The bulk of C16 (parser containment, stack depth, rewriters) is not decided by this technique.",
@@ -54,17 +55,20 @@ prop("C07", "Line-width and trailing-whitespace diagnostics are exact", "proof",
                   "FileLines::contains_line is an arbitrary predicate in V (external_body), the real one in B; is_skipped_line's contract is assumed in V and checked in U04"])
 
 prop("C20", "The --backup write protocol never loses the original", "fault_enumeration",
-     [{"unit": "U16", "only": r"^(FilesWithBackupEmitter|create_emitter)"}],
+     [{"unit": "U16", "only": r"^(FilesWithBackupEmitter|create_emitter)"}, {"unit": "U25", "only": r"--backup|--check"}],
      [{"clause": "at every instant (after every completed, failed or interrupted file-system operation) the complete original is in the file or in its .bk sibling", "status": "bounded", "by": "U16 (complete fault enumeration w.r.t. the FS model)"},
       {"clause": "the file, when present, holds the complete original or the complete formatted text, never a partial one", "status": "bounded", "by": "U16"},
       {"clause": "after success file = formatted and .bk = original; unchanged files get no .bk and no operation", "status": "bounded", "by": "U16"},
+      {"clause": "the --backup flag reaches make_backup(true) whatever other flags are given, and create_emitter then selects the backup emitter for --emit files", "status": "bounded", "by": "U25 (all flag combinations) + U16 create_emitter table"},
       {"clause": "position of the file in a multi-file run (each file's write is an independent call of the same function)", "status": "not_decided", "by": "-"}],
      "The real text of FilesWithBackupEmitter::emit_formatted_file runs against a recording file-system model; its effect sequence is loop-free, so enumerating "
      "every operation index x {fails without effect, fails after a partial write, crash right after, crash after a partial write} is a complete fault enumeration with respect to the model "
      "(write non-atomic, rename atomic and replacing). Neither Verus nor Kani can execute Path::with_extension / dyn Write / io::Error code (Kani > 10 min), so this is native and labelled as enumeration, not proof.",
      statement_clauses={"U16": "whichever file-system operation of the write is the last to complete before a crash or an I/O error, one of the two holds the complete original, and the file, when present, holds either the complete original or the complete formatted text, never a partial one"},
      assumptions=["POSIX model: fs::write may leave a prefix, fs::rename is atomic and replaces its target; a crash happens between operations or inside a write",
-                  "file contents drawn from 4 short texts: the function never inspects the bytes beyond `original_text != formatted_text`"])
+                  "file contents drawn from 4 short texts: the function never inspects the bytes beyond `original_text != formatted_text`"],
+     )
+PROPS["C20"]["statement_clauses"]["U25"] = "When rustfmt rewrites a file with --backup ..."
 
 prop("C15", "Output is a function of source and configuration only", "proof",
      ["U05", {"unit": "U23", "only": r"^format_input_inner"}],
@@ -91,12 +95,13 @@ prop("C05", "A failing run never damages source files", "other",
                         "U23": "If the input cannot be processed (...), rustfmt writes nothing for that crate root"})
 
 prop("C06", "Check mode is read-only and exact; all emit modes agree on the text", "other",
-     ["U05", {"unit": "U16", "exclude": r"^FilesWithBackupEmitter"}],
+     ["U05", {"unit": "U16", "exclude": r"^FilesWithBackupEmitter"}, {"unit": "U25", "only": r"--check|--backup"}],
      [{"clause": "--check exits 1 exactly when (no operational/parsing error and) a diff or check error was recorded, 0 otherwise (exit-code statement of `format`)", "status": "proved", "by": "U05 (Kani, complete)"},
       {"clause": "files mode touches a file only if its formatted text differs from the original, and then writes exactly the formatted text", "status": "bounded", "by": "U16"},
       {"clause": "stdout mode prints exactly the formatted text (plus the file-name header unless quiet) — the same &str the files emitter writes", "status": "bounded", "by": "U16"},
       {"clause": "--check / stdout / diff / json / checkstyle / modified-lines never modify a file: create_emitter selects a writing emitter only for EmitMode::Files; the other emitter files contain no file-system name", "status": "bounded", "by": "U16 + frame scan emitters_no_fs"},
-      {"clause": "DiffEmitter's has_diff <=> original != formatted (ties --check's exit to what files mode would rewrite)", "status": "not_decided", "by": "planned in U15"},
+      {"clause": "--check selects the (non-writing) diff emitter whatever --emit says", "status": "bounded", "by": "U25 (all flag combinations)"},
+      {"clause": "DiffEmitter's has_diff <=> original != formatted (ties --check's exit to what files mode would rewrite)", "status": "not_decided", "by": "-"},
       {"clause": "modification times; text produced for stdin equals text for a path", "status": "not_decided", "by": "-"}],
      "Mixture: exit-code formula proved (Kani), emitter behaviour enumerated on the real text, frame scan for the non-writing emitters.",
      statement_clauses={"U05": "`--check` exits with 1 exactly when plain `rustfmt` would rewrite at least one of the files, and with 0 otherwise",
@@ -130,7 +135,7 @@ prop("C08", "Emitted text obeys the whitespace and newline discipline", "other",
      assumptions=["U08 precondition: no CR immediately before CRLF in the formatted buffer (the pipeline strips bare CRs earlier)", "FmtVisitor is a shim {buffer, line_number, config}"])
 
 prop("C14", "Configuration is resolved with the documented precedence", "other",
-     ["U19"],
+     ["U19", "U25"],
      [{"clause": "unset options take the defaults of the effective style edition: style_edition, else legacy version, else edition", "status": "proved", "by": "U19 (Kani, complete)"},
       {"clause": "an explicitly set width option is clamped to max_width, an unset one takes the heuristic; Max => equal to max_width; Off => the null table", "status": "proved", "by": "U19 (Kani, complete over all usize)"},
       {"clause": "Default heuristics never exceed max_width for 70 <= max_width <= 10000 (f32 rounding bit-precise)", "status": "proved", "by": "U19 (Kani, stated range)"},
@@ -138,6 +143,7 @@ prop("C14", "Configuration is resolved with the documented precedence", "other",
       {"clause": "deprecated aliases map to their successors (only when the successor is unset)", "status": "proved", "by": "U19 (Kani, complete)"},
       {"clause": "--config-path replaces discovery wholesale; else the nearest file; else defaults; command-line overrides applied after the file", "status": "bounded", "by": "U19 native (complete enumeration of the decision domain, loaders shimmed)"},
       {"clause": "the dotted name wins in the same directory", "status": "bounded", "by": "U19 native (real file system, 9 presence patterns)"},
+      {"clause": "every dedicated flag sets its option as a command-line override (set_cli: wins over any file); inline --config key=val pairs are applied last, each once; inline edition/style_edition/version beat the dedicated flags in default selection", "status": "bounded", "by": "U25 (complete over the flag combinations, recording Config)"},
       {"clause": "directory walk / home / user-config lookup; same value same effect from file, flag or API for every option (macro-generated per-option code); --print-config round trip (serde/toml)", "status": "not_decided", "by": "-"}],
      "Loop-free precedence and clamping code is proved with Kani on the extracted text of the create_config! helper functions (they use no macro metavariable, so they can be sliced out of the macro body verbatim). "
      "The loader orchestration is enumerated natively with recording stand-ins for the TOML half. The per-option macro code ($i metavariables) is not extractable and not decided.",
